@@ -273,3 +273,64 @@ Theorem C03_ziggurat_fast_path_inside_core :
     (i < 127)%nat -> (0 <= j < kz (Datatypes.S i))%Z ->
     (inject_Z j * fst (nth (Datatypes.S i) zig_W (0%Q, 0%float)) < xq i)%Q.
 Proof. exact ziggurat_fast_path_inside_core. Qed.
+
+(** ** Tie A: the inverse-CDF formulas of the model ARE the source (expression translator).  [Generated/samplers.v] is
+    re-translated from src/distributions/{uniform,exponential,gumbel,pareto}.rs and src/functions/gamma.rs on every run
+    (tools/tiea/samplers.py, tools/rsexpr.py), operation for operation.  Randomness is abstract in the generated terms:
+    the value of [alea::f64()] is a parameter; for the rejection loop [let u = loop { let u = <draw>; if u > 0. { break u; } }]
+    the accepted draw is the last argument of [<Law>_sample] and the loop's condition is [<Law>_sample_accept].
+    For EVERY carrier [T], operations record [O] and random source [src]. *)
+From Compute Require Import Base.RsExpr Model.Special Generated.special_consts Generated.samplers Proofs.TieA_samplers.
+Theorem C03_model_is_source_Uniform_sample :
+  forall (T : Type) (O : Ops T) (S : Type) (src : source S T) (lo hi : T) (s : S),
+    uniform_sample O src lo hi s = let (u, s') := next_f64 src s in (Uniform_sample O u lo hi, s').
+Proof. exact @tiea_Uniform_sample. Qed.
+Theorem C03_model_is_source_Exponential_sample :
+  forall (T : Type) (O : Ops T) (S : Type) (src : source S T) (fuel : nat) (lambda : T) (s : S),
+    exponential_sample O src fuel lambda s =
+    res_bind (positive_unit O src fuel s) (fun p : T * S => let (u, s') := p in Ok (Exponential_sample O lambda u, s')).
+Proof. exact @tiea_Exponential_sample. Qed.
+Theorem C03_model_is_source_Gumbel_sample :
+  forall (T : Type) (O : Ops T) (S : Type) (src : source S T) (fuel : nat) (mu beta : T) (s : S),
+    gumbel_sample O src fuel mu beta s =
+    res_bind (positive_unit O src fuel s) (fun p : T * S => let (u, s') := p in Ok (Gumbel_sample O mu beta u, s')).
+Proof. exact @tiea_Gumbel_sample. Qed.
+Theorem C03_model_is_source_Pareto_sample :
+  forall (T : Type) (O : Ops T) (S : Type) (src : source S T) (fuel : nat) (alpha minval : T) (s : S),
+    pareto_sample O src fuel alpha minval s =
+    res_bind (positive_f64 O src fuel s) (fun p : T * S => let (u, s') := p in Ok (Pareto_sample O alpha minval u, s')).
+Proof. exact @tiea_Pareto_sample. Qed.
+Theorem C03_model_is_source_Bernoulli_sample :
+  forall (T : Type) (O : Ops T) (S : Type) (src : source S T) (p : T) (s : S),
+    fst (bernoulli_sample O src p s) = Bernoulli_sample O (fst (next_f64 src s)) p.
+Proof. exact @tiea_Bernoulli_sample. Qed.
+(** one iteration of the model's rejection loop draws once and tests the source's condition *)
+Theorem C03_model_is_source_Exponential_sample_accept :
+  forall (T : Type) (O : Ops T) (S : Type) (src : source S T) (lambda : T) (fuel : nat) (s : S),
+    positive_unit O src (Datatypes.S fuel) s =
+    let (u, s') := uniform_sample O src (zero O) (one O) s in
+    if Exponential_sample_accept O lambda u then Ok (u, s') else positive_unit O src fuel s'.
+Proof. exact @tiea_Exponential_sample_accept. Qed.
+Theorem C03_model_is_source_Gumbel_sample_accept :
+  forall (T : Type) (O : Ops T) (S : Type) (src : source S T) (mu beta : T) (fuel : nat) (s : S),
+    positive_unit O src (Datatypes.S fuel) s =
+    let (u, s') := uniform_sample O src (zero O) (one O) s in
+    if Gumbel_sample_accept O mu beta u then Ok (u, s') else positive_unit O src fuel s'.
+Proof. exact @tiea_Gumbel_sample_accept. Qed.
+Theorem C03_model_is_source_Pareto_sample_accept :
+  forall (T : Type) (O : Ops T) (S : Type) (src : source S T) (alpha minval : T) (fuel : nat) (s : S),
+    positive_f64 O src (Datatypes.S fuel) s =
+    let (u, s') := next_f64 src s in
+    if Pareto_sample_accept O alpha minval u then Ok (u, s') else positive_f64 O src fuel s'.
+Proof. exact @tiea_Pareto_sample_accept. Qed.
+(** [ln_gamma] (used by the Poisson PTRS sampler): body with the recursive call abstracted, and the model *)
+Theorem C03_model_is_source_ln_gamma_body :
+  forall (T : Type) (O : Ops T) (LnGam : T -> T) (z : T),
+    src_ln_gamma O LnGam z =
+    if ltb O z (ofQ O (1 # 2))
+    then sub O (f1 O Ln (div O (pi O) (abs O (f1 O Sin (mul O (pi O) z))))) (LnGam (sub O (one O) z))
+    else ln_gamma_pos O z.
+Proof. exact @tiea_ln_gamma_body. Qed.
+Theorem C03_model_is_source_ln_gamma :
+  forall (T : Type) (O : Ops T) (z : T), src_ln_gamma O (ln_gamma_pos O) z = ln_gamma O z.
+Proof. exact @tiea_ln_gamma. Qed.
